@@ -100,43 +100,60 @@ def run(ctx):
     for bi, t in ins:
         vals.append((bi, peel(ga.argv(bi, 1), unwraps=True)))
     kinds = collections.Counter()
-    # array element writes
-    arrs = collections.defaultdict(dict)
-    for bi, b in enumerate(ga.blocks):
-        if b['cleanup']:
-            continue
-        for i, s in enumerate(b['stmts']):
-            pr = s['lhs']['p']
-            if len(pr) == 1 and isinstance(pr[0], dict) and 'index' in pr[0]:
-                idx = const_val(ga.value_of_local(pr[0]['index'], (bi, i)))
-                arrs[s['lhs']['l']][idx] = ga._through(ga.rvalue(s['rv'], (bi, i)), (bi, i), 0)
+    # the derived members, as bit vectors over the bits of the configured address (vlib/bits.py): decided for
+    # every address value, whatever the spelling (element stores, array literal, named constants, shifts ...)
+    from vlib.bits import BitEval, describe
 
-    def octet(e, n, mask=None):
-        e = peel(e, casts=True)
-        if mask is not None:
-            if not (isinstance(e, tuple) and e[0] == 'bin' and e[1] == 'BitAnd' and const_val(e[3]) == mask):
-                return False
-            e = peel(e[2], casts=True)
-        if not (isinstance(e, tuple) and e[0] in ('index',)):
-            return False
-        base = peel(e[1])
-        if not is_call(base, r'Ipv[46]Addr::octets$'):
-            return False
-        return const_val(e[2]) == n
-    for l, d in arrs.items():
-        lead = [const_val(d.get(i)) for i in (0, 1, 2)]
-        name = 'eth_ma' if lead[:1] == [0x01] else ('eth_snma' if lead[:1] == [0x33] else '?')
-        if not re.search(r'^\[u8; 6_usize\]$', ga.locals[l]['ty']):
+    def mac_bytes(bi):
+        v = ga.arg(bi, 1)
+        while isinstance(v, tuple) and v[0] in ('ref', 'deref'):
+            v = v[1]
+        if is_call(v, r'MacAddr::new$') and len(v[2]) == 6:
+            return list(v[2])
+        if isinstance(v, tuple) and v[0] == 'agg' and 'MacAddr' in str(v[1]) and len(v[2]) == 6:
+            return list(v[2])
+        sites = [cb for cb, _ in ga.calls(r'convert::From::from$|From<\[u8; 6\]>>::from$') if ga.call_val(cb) == v or ga.call_expr(cb) == v]
+        if sites:
+            fb = sites[0]
+            a = ga.blocks[fb]['term']['args'][0]
+            pt = (fb, len(ga.blocks[fb]['stmts']))
+            if a['k'] in ('copy', 'move') and not a['place']['p'] and re.search(r'^\[u8; 6_usize\]$', ga.locals[a['place']['l']]['ty']):
+                return [ga._through(ga.read(('index', ('local', a['place']['l']), ('const', i_, None, 'usize')), pt), pt, 0) for i_ in range(6)]
+            e = peel(ga.argv(fb, 0), unwraps=False)
+            if isinstance(e, tuple) and e[0] == 'agg' and e[1] == 'array' and len(e[2]) == 6:
+                return list(e[2])
+        return None
+
+    def want(prefix, nbits):
+        out = []
+        for b_ in prefix:
+            out.append([(b_ >> k) & 1 for k in range(8)])
+        low = [('i', k) for k in range(nbits)] + [0] * (24 - nbits)
+        # bytes 3,4,5 carry bits 23..16, 15..8, 7..0 of the address
+        out += [low[16:24], low[8:16], low[0:8]]
+        return out
+    for bi, v in vals:
+        mb = mac_bytes(bi)
+        if mb is None:
             continue
-        if name == 'eth_ma':
-            ok = [const_val(d.get(i)) for i in (0, 1, 2)] == [0x01, 0x00, 0x5e] and octet(d.get(3), 1, 0x7f) and octet(d.get(4), 2) and octet(d.get(5), 3) and set(d) == set(range(6))
-            rep.check(r1b, ok, 'ipv4-multicast-mac', 'eth_ma = %s' % [short(d.get(i)) for i in range(6)], '%s:%d' % (ga.file, ga.line))
+        be = BitEval()
+        got = [be.bits(x) for x in mb]
+        got = [(g + [0] * 8)[:8] if g is not None else [None] * 8 for g in got]
+        keys = {b_[1] for g in got for b_ in g if isinstance(b_, tuple)}
+        norm = [[('i', b_[2]) if isinstance(b_, tuple) else b_ for b_ in g] for g in got]
+        shown = ' | '.join(describe(g) for g in got)
+        kstr = short(list(keys)[0][1])[:70] if len(keys) == 1 else str(len(keys))
+        from_iter = len(keys) == 1 and any(is_call(x, r'Iterator>::next$|Iterator::next$') for x in walk(list(keys)[0][1]))
+        if norm == want([0x01, 0x00, 0x5e], 23) and from_iter and 'V4' in kstr:
+            rep.ok(r1b, 'ipv4-multicast-mac', '01:00:5e + low 23 bits of the address, bit-exact: %s (address = %s)' % (shown, kstr), ga.loc(bi))
             kinds['v4'] += 1
-        elif name == 'eth_snma':
-            ok = [const_val(d.get(i)) for i in (0, 1, 2)] == [0x33, 0x33, 0xff] and octet(d.get(3), 13) and octet(d.get(4), 14) and octet(d.get(5), 15) and set(d) == set(range(6))
-            rep.check(r1b, ok, 'ipv6-solicited-node-mac', 'eth_snma = %s' % [short(d.get(i)) for i in range(6)], '%s:%d' % (ga.file, ga.line))
+        elif norm == want([0x33, 0x33, 0xff], 24) and from_iter and 'V6' in kstr:
+            rep.ok(r1b, 'ipv6-solicited-node-mac', '33:33:ff + low 24 bits of the address, bit-exact: %s (address = %s)' % (shown, kstr), ga.loc(bi))
             kinds['v6'] += 1
-    rep.check(r1b, kinds['v4'] == 1 and kinds['v6'] == 1, 'derived-arrays', 'derived address arrays found: %s' % dict(kinds))
+        else:
+            rep.bad(r1b, 'derived-mac:%s' % ga.loc(bi).split(':')[0], 'a derived member of the authorised set is neither 01:00:5e+low23(IPv4 address of the list) nor 33:33:ff+low24(IPv6 address of the list): bits %s (inputs: %s)' % (shown, kstr), ga.loc(bi))
+            kinds['other'] += 1
+    rep.check(r1b, kinds['v4'] == 1 and kinds['v6'] == 1 and not kinds['other'], 'derived-arrays', 'derived address members found: %s' % dict(kinds))
     fixed = []
     for bi, v in vals:
         raw = ga.arg(bi, 1)
